@@ -231,6 +231,31 @@ class Desugar(ast.NodeTransformer):
 
     def visit_Assign(self, node):
         pre = self._hoist(node, "value")
+        # chained assignment with one attribute target:  obj.f = x = e   ->   obj.f = e ; x = obj.f
+        # (e is evaluated once and both names are bound to the same object either way; obj.f is a data attribute)
+        attrs = [t for t in node.targets if isinstance(t, ast.Attribute) and isinstance(t.value, ast.Name)]
+        names = [t for t in node.targets if isinstance(t, ast.Name)]
+        if len(node.targets) > 1 and len(attrs) == 1 and len(names) == len(node.targets) - 1:
+            a = attrs[0]
+            first = ast.copy_location(ast.Assign(targets=[a], value=node.value), node)
+            rest = [ast.copy_location(ast.Assign(
+                targets=[n], value=ast.copy_location(ast.Attribute(value=ast.copy_location(ast.Name(id=a.value.id, ctx=ast.Load()), a),
+                                                                   attr=a.attr, ctx=ast.Load()), a)), node) for n in names]
+            out = pre + [first] + rest
+            for x in out:
+                ast.fix_missing_locations(x)
+            return out
+        # element-wise tuple assignment whose values do not mention the targets:  a, b = e1, e2  ->  a = e1 ; b = e2
+        # (a swap `a, b = b, a` mentions them and stays as it is)
+        if len(node.targets) == 1 and isinstance(node.targets[0], (ast.Tuple, ast.List)) and isinstance(node.value, (ast.Tuple, ast.List)) \
+                and len(node.targets[0].elts) == len(node.value.elts) and all(isinstance(t, ast.Name) for t in node.targets[0].elts) \
+                and not any(isinstance(v, ast.Starred) for v in node.value.elts):
+            tn = {t.id for t in node.targets[0].elts}
+            if len(tn) == len(node.targets[0].elts) and not any(isinstance(x, ast.Name) and x.id in tn for v in node.value.elts for x in ast.walk(v)):
+                out = pre + [ast.copy_location(ast.Assign(targets=[t], value=v), node) for t, v in zip(node.targets[0].elts, node.value.elts)]
+                for x in out:
+                    ast.fix_missing_locations(x)
+                return out
         return pre + [node] if pre else node
 
     def visit_Expr(self, node):
